@@ -180,6 +180,10 @@ def parseOp (toks : List String) : Option Op :=
   | ["recv", q] => do some (.recv (← q.toNat?))
   | ["tryrecv", q] => do some (.tryRecv (← q.toNat?))
   | ["droprx", q] => do some (.dropRx (← q.toNat?))
+  -- dropping the (only) `Sender` of channel `q`: loom's `Sender` has no `Drop` and the channel object is not told, so
+  -- for the model nothing happens (an `ifeq` that skips nothing: no scheduling point, no event); the harness really
+  -- drops the sender, so that what `try_recv`/`recv` do once every sender is gone is exercised
+  | ["droptx", _q] => some (.ifEq 0 .unit 0)
   | ["anew", h] => do some (.arcNew (← h.toNat?))
   | ["aclone", h, h2] => do some (.arcClone (← h.toNat?) (← h2.toNat?))
   | ["adrop", h] => do some (.arcDrop (← h.toNat?))
